@@ -250,6 +250,10 @@ def run_case(ctx, case):
                            for t in sch.order])
     return True
 
+  return judge(ctx, case, specs, stopped, wait, flow)
+
+
+def judge(ctx, case, specs, stopped, wait, flow):
   # ---- device log verdicts -----------------------------------------------------
   pas = S.FakePyAudio.instances
   if len(pas) != 1:
